@@ -234,7 +234,7 @@ fn check_write(name: &str, map: &mut Beatmap, good: &[u8], fault: WriteFault, at
                 Err(e) => acc.violation(Violation::new("spurious-error", format!("{name}: {:?}", e.kind()), write_case(name, &label, at))),
             }
         }
-        WriteFault::Short(_) | WriteFault::Interrupt(_) => match res {
+        WriteFault::Short(_) | WriteFault::Interrupt(_) | WriteFault::FlushInterrupt(_) => match res {
             Ok(()) if w.out == good => {}
             Ok(()) => acc.violation(Violation::new(
                 "output-differs",
@@ -288,6 +288,10 @@ fn write_side(tier: Tier, acc_out: &mut Acc) -> Value {
         for kind in KINDS {
             check_write(name, &mut map, &good, WriteFault::Flush(kind), 0, acc);
         }
+        // a flush that is merely interrupted (once, three times) is as transient as an interrupted write
+        for n in [1usize, 3] {
+            check_write(name, &mut map, &good, WriteFault::FlushInterrupt(n), 0, acc);
+        }
         for n in [1usize, 2, 7, 16] {
             if good.len() > 20_000 && n < 7 {
                 continue;
@@ -308,7 +312,7 @@ fn write_side(tier: Tier, acc_out: &mut Acc) -> Value {
     });
     let cur = std::mem::take(acc_out);
     *acc_out = cur.merge(a);
-    json!({"maps": files.len(), "all_output_offsets_up_to_bytes": dense, "faults": ["Err(kind) x5", "one-off Err then working again", "Ok(0)", "failing flush x5", "short writes 1/2/7/16", "Interrupted at every write call"]})
+    json!({"maps": files.len(), "all_output_offsets_up_to_bytes": dense, "faults": ["Err(kind) x5", "one-off Err then working again", "Ok(0)", "failing flush x5", "flush interrupted once / three times", "short writes 1/2/7/16", "Interrupted at every write call"]})
 }
 
 pub fn replay(case: &Value) -> Vec<Violation> {
@@ -358,6 +362,8 @@ pub fn replay(case: &Value) -> Vec<Violation> {
                     WriteFault::Err(kind)
                 } else if f.starts_with("Zero") {
                     WriteFault::Zero
+                } else if f.starts_with("FlushInterrupt") {
+                    WriteFault::FlushInterrupt(num(f))
                 } else if f.starts_with("Flush") {
                     WriteFault::Flush(kind)
                 } else if f.starts_with("Short") {
